@@ -90,4 +90,13 @@ PROPS = {
         ],
         "fuzz": [{"mod": "h23", "pkg": "c13", "target": "FuzzC13_Decode", "secs": 300}],
     },
+    "C10": {
+        "level": "exploration",
+        "units": [
+            R("h23", "c10", "TestC10_RoundTrip", (30000, 8), (2000000, 16, 3000)),
+            R("h23", "c10", "TestC10_AnnounceSend", (5000, 1), (100000, 2, 3000)),
+            R("h23", "c10", "TestC10_Decode", (100000, 8), (3000000, 16, 3000)),
+        ],
+        "fuzz": [{"mod": "h23", "pkg": "c10", "target": "FuzzC10_UnmarshalCBOR", "secs": 300}],
+    },
 }
